@@ -1,7 +1,7 @@
 """C16 naken_asm never crashes, hangs or corrupts memory, whatever the source text (libFuzzer campaign + replay tier)."""
 import os, re, glob, shutil, hashlib, subprocess, time, base64
 from nvlib import (Stats, Violation, shard_seed, load_known, run_cli)
-import nvbuild
+import nvbuild, fuzzdrv
 
 PROP = "C16"
 TARGETS = ["fuzz_asm", "naken_asm_san"]
@@ -42,31 +42,6 @@ DICT = [".macro", ".endm", ".define", ".if", ".ifdef", ".ifndef", ".else", ".end
         ".riscv", ".avr8", ".8051", ".thumb", ".x86", ".powerpc", ".stm8", ".dspic", ".propeller", ".java", ".webasm"]
 
 
-class Known:
-    def __init__(self):
-        self.items = []
-        for f in load_known(PROP):
-            m = f.get("match", {})
-            if m.get("pred") == "crash_site":
-                self.items.append((f["id"], m))
-
-    def match(self, site):
-        for fid, m in self.items:
-            if any(sub in site for sub in m["sites"]):
-                return fid
-        return None
-
-    def avoid(self):
-        out = []
-        for fid, m in self.items:
-            out += ["%s\t%d" % (a["contains"].lower(), a["token_len"]) for a in m.get("avoid", [])]
-        return out
-
-
-def bin_path(name):
-    return os.path.join(nvbuild.build_dir(nvbuild.repo_dir()), name)
-
-
 def make_seeds(d, empty):
     os.makedirs(d, exist_ok=True)
     n = 0
@@ -104,180 +79,29 @@ def make_seeds(d, empty):
     return n
 
 
-def crash_site(report):
-    """first frame inside /repo (file:function), or the UBSan location"""
-    m = re.search(r"(/repo/\S+?):(\d+):\d+: runtime error: ([^\n]*)", report)
-    if m:
-        return "%s: %s" % (m.group(1)[6:], m.group(3)[:80]), m.group(0)[:300]
-    m = re.search(r"C16-ORACLE: ([^\n]*)", report)
-    if m:
-        return "oracle: " + m.group(1)[:80], m.group(0)
-    kind = re.search(r"ERROR: AddressSanitizer: (\S+)", report)
-    fr = re.search(r"#\d+ 0x[0-9a-f]+ in (\S+)[^\n]* /repo/(\S+?):\d+", report)
-    if kind or fr:
-        return "%s in %s %s" % (kind.group(1) if kind else "signal", fr.group(2) if fr else "?", fr.group(1) if fr else "?"), \
-            (kind.group(0) if kind else "") + " " + (fr.group(0) if fr else "")
-    m = re.search(r"ERROR: libFuzzer: ([^\n]*)", report)
-    return ("libFuzzer: " + m.group(1) if m else "unknown"), report[-300:]
-
-
-def run_target_on(path, timeout=120, unit_timeout=60):
-    env = dict(os.environ, ASAN_OPTIONS="detect_leaks=0", NV_FUZZ_TMP="/dev/shm" if os.path.isdir("/dev/shm") else "/verif/build")
-    try:
-        p = subprocess.run([bin_path("fuzz_asm"), "-timeout=%d" % unit_timeout, path], capture_output=True, timeout=timeout, env=env)
-        return p.returncode, (p.stdout + p.stderr).decode("latin-1")
-    except subprocess.TimeoutExpired as e:
-        return None, "timeout"
-
-
-def cleanup_scratch():
-    for d in glob.glob("/dev/shm/nvfuzz_asm.*"):
-        pid = d.rsplit(".", 1)[1]
-        if not os.path.exists("/proc/" + pid):
-            shutil.rmtree(d, ignore_errors=True)
 
 
 def run(tier, seed, shard, nshards):
     s = Stats()
-    known = Known()
-    survey = os.environ.get("NV_SURVEY") == "1"
     budget = int(os.environ.get("NV_C16_SECONDS", "40" if tier == "quick" else "600"))
-    base = "/verif/build/fuzz/c16/%s-%s/shard%02d" % (tier, seed, shard)
-    shutil.rmtree(base, ignore_errors=True)
-    os.makedirs(base)
-    corpus = os.path.join(base, "corpus")
-    nseeds = make_seeds(corpus, empty=(shard % 4 == 3))
-    s.count("seed_files", nseeds)
-    with open(os.path.join(base, "dict"), "w") as f:
-        for i, w in enumerate(DICT):
-            f.write('kw%d="%s"\n' % (i, w.replace("\\", "\\\\").replace('"', '\\"').replace("\n", "\\x0a")))
-    avoid = known.avoid()
-    with open(os.path.join(base, "avoid"), "w") as f:
-        f.write("\n".join(avoid) + ("\n" if avoid else ""))
-    tmpbase = "/dev/shm" if os.path.isdir("/dev/shm") else base
-    env = dict(os.environ, ASAN_OPTIONS="detect_leaks=0", NV_FUZZ_TMP=tmpbase, NV_FUZZ_STATS=os.path.join(base, "stats"),
-               NV_FUZZ_AVOID=os.path.join(base, "avoid"))
-    # replay tier: committed regression inputs, shard 0 only
-    if shard == 0:
-        for p in sorted(glob.glob("/verif/corpus/C16/*")):
-            rc, out = run_target_on(p)
-            s.evaluations += 1
-            s.count("regression_inputs_replayed")
-            if rc != 0:
-                site, detail = crash_site(out)
-                fid = known.match(site)
-                if fid:
-                    s.known_hits.setdefault(fid, dict(site=site, input=os.path.basename(p)))
-                    continue
-                s.violations.append(dict(engine="c16", kind="regression", site=site, detail=detail,
-                                         artifact_b64=base64.b64encode(open(p, "rb").read()).decode(),
-                                         what="a committed regression input crashes the assembler again"))
-    t_end = time.time() + budget
-    rounds = 0
-    sites_seen = {}
-    totals = {}
-    while time.time() < t_end - 5 and rounds < 8:
-        rounds += 1
-        left = int(t_end - time.time())
-        art = os.path.join(base, "art%d" % rounds)
-        os.makedirs(art, exist_ok=True)
-        cmd = [bin_path("fuzz_asm"), "-seed=%d" % (shard_seed(seed, shard, "c16") % 2000000000 + rounds),
-               "-max_total_time=%d" % left, "-timeout=10", "-rss_limit_mb=3000", "-max_len=8192", "-print_final_stats=1",
-               "-artifact_prefix=" + art + "/", "-dict=" + os.path.join(base, "dict"), corpus]
+
+    def timeout_check(path, data):
+        # re-run through the CLI under a 60 s limit
+        d = "/verif/build/fuzz/c16/to_%d" % os.getpid()
+        os.makedirs(d, exist_ok=True)
         try:
-            p = subprocess.run(cmd, capture_output=True, env=env, timeout=left + 120)
-            log = (p.stdout + p.stderr).decode("latin-1")
-        except subprocess.TimeoutExpired:
-            log = ""
-            s.inconclusive += 1
-        with open(os.path.join(base, "log%d.txt" % rounds), "w") as f:
-            f.write(log[-200000:])
-        try:
-            for l in open(os.path.join(base, "stats")):
-                k, v = l.split()
-                totals[k] = totals.get(k, 0) + int(v)
-            os.remove(os.path.join(base, "stats"))
-        except (OSError, ValueError):
-            pass
-        arts = sorted(glob.glob(art + "/*"))
-        if not arts:
-            break
-        for a in arts:
-            name = os.path.basename(a)
-            data = open(a, "rb").read()
-            if name.startswith(("crash-", "leak-")):
-                rc, out = run_target_on(a)
-                site, detail = crash_site(out if rc not in (0, None) else log)
-                sites_seen[site] = sites_seen.get(site, 0) + 1
-                if survey:
-                    s.notes.append("SURVEY\t%s\t%s\t%s" % (site, detail.replace("\n", " ")[:200], a))
-                    shutil.copy(a, "/verif/build/survey_c16_" + hashlib.sha1(site.encode()).hexdigest()[:10])
-                    continue
-                fid = known.match(site)
-                if fid:
-                    s.known_hits.setdefault(fid, dict(site=site))
-                    s.excluded_known += 1
-                    continue
-                s.violations.append(dict(engine="c16", kind="crash", site=site, detail=detail,
-                                         artifact_b64=base64.b64encode(data).decode(),
-                                         source_head=data[1:400].decode("latin-1"),
-                                         what="naken_asm crashed / corrupted memory on this source (sanitizer report or signal)"))
-            elif name.startswith("timeout-"):
-                # re-run through the CLI under a 60 s limit
-                d = os.path.join(base, "to")
-                os.makedirs(d, exist_ok=True)
-                with open(os.path.join(d, "input.asm"), "wb") as f:
-                    f.write(data[1:])
-                rc, out, err, to = run_cli("naken_asm_san", ["-l", "input.asm"], cwd=d, timeout=60)
-                if to:
-                    if survey:
-                        s.notes.append("SURVEY\thang\t%s" % a)
-                        continue
-                    fid = known.match("hang")
-                    if fid:
-                        s.known_hits.setdefault(fid, dict(site="hang"))
-                        continue
-                    s.violations.append(dict(engine="c16", kind="hang", site="hang", detail="still running after 60 s",
-                                             artifact_b64=base64.b64encode(data).decode(), source_head=data[1:400].decode("latin-1"),
-                                             what="naken_asm does not terminate on this source"))
-                else:
-                    s.count("timeouts_not_reproduced")
-            else:
-                s.count("artifact_ignored." + name.split("-")[0])
-        if any(v >= 3 for v in sites_seen.values()):
-            break
-    s.evaluations += totals.get("exec", 0)
-    for k, v in totals.items():
-        s.count(k, v)
-    s.count("fuzz_rounds", rounds)
-    units = 0
-    for p in glob.glob(corpus + "/*"):
-        units += 1
-        s.nt(("unit", os.path.basename(p)[:16]))
-    s.count("corpus_units", units)
-    if len(s.samples) < 2:
-        for p in sorted(glob.glob(corpus + "/*"), key=os.path.getmtime)[-2:]:
-            s.sample(dict(unit=os.path.basename(p), head=open(p, "rb").read()[1:120].decode("latin-1")))
-    if not os.environ.get("NV_KEEP_FUZZ"):
-        shutil.rmtree(base, ignore_errors=True)
-    cleanup_scratch()
+            with open(os.path.join(d, "input.asm"), "wb") as f:
+                f.write(data[1:])
+            rc, out, err, to = run_cli("naken_asm_san", ["-l", "input.asm"], cwd=d, timeout=60)
+            return bool(to)
+        finally:
+            shutil.rmtree(d, ignore_errors=True)
+
+    fuzzdrv.campaign(s, PROP, "fuzz_asm", tier, seed, shard, budget, lambda d: make_seeds(d, empty=(shard % 4 == 3)), DICT,
+                     "/verif/corpus/C16/*", timeout_check=timeout_check,
+                     what="naken_asm crashed / corrupted memory on this source (sanitizer report or signal)")
     return s
 
 
 def replay(payload):
-    d = "/verif/build/fuzz/c16/replay"
-    os.makedirs(d, exist_ok=True)
-    p = os.path.join(d, "input_%d" % os.getpid())
-    with open(p, "wb") as f:
-        f.write(base64.b64decode(payload["artifact_b64"]))
-    try:
-        if payload.get("kind") == "hang":
-            rc, out = run_target_on(p, timeout=60, unit_timeout=20)
-            return rc is None or rc != 0, "still running after 20 s"
-        rc, out = run_target_on(p)
-        if rc not in (0,):
-            return True, crash_site(out)[1]
-        return False, "passes"
-    finally:
-        os.remove(p)
-        cleanup_scratch()
+    return fuzzdrv.replay(PROP, payload, "fuzz_asm")
